@@ -1576,6 +1576,12 @@ def _b_any(interp, args, kw):
 
 def _b_all(interp, args, kw):
     if _symbolic_len(args[0]):
+        from .symstruct import forced_value
+        if forced_value(interp.path, args[0].length()) is not None:
+            for x in interp.iterate(args[0]):        # the path condition fixes the length: plain iteration
+                if not interp.truth(x):
+                    return False
+            return True
         # all(phi(y) for y in <sequence of symbolic length>): a fresh Boolean b with the schema  b => phi(seq[i]) for every index i
         # (and  not b => some index fails), registered on the path and instantiated where needed (symstruct.instantiate_all)
         b = z3.Bool(f"all!{next(interp.path.fresh)}")
